@@ -301,6 +301,16 @@ fn gen_case(rng: &mut Rng) -> Case {
 
 // ---------------------------------------------------------------------------------------------
 
+/// removes the scratch file (and the directory made for it) when the case ends, however it ends
+struct Cleanup(std::path::PathBuf, std::path::PathBuf);
+
+impl Drop for Cleanup {
+    fn drop(&mut self) {
+        let _ = std::fs::remove_file(&self.0);
+        let _ = std::fs::remove_dir_all(&self.1);
+    }
+}
+
 fn used_in(inst: &v1::Instance) -> BTreeSet<u64> {
     let mut s = BTreeSet::new();
     if let Some(f) = &inst.objective {
@@ -380,7 +390,7 @@ impl Property for C18 {
         }
     }
     fn rule(&self) -> &'static str {
-        "each case: one instance with 0-6 variables (binary/integer/continuous, ids small, sparse or up to 2^62, bound unspecified / finite / lower-only / upper-only / infinite / negative / fractional / degenerate), some of them unused, objective absent / constant / linear, 0-5 constraints (= 0 or <= 0, non-contiguous ids, constant-only ones included), normalised linear functions (each id once, no zero coefficient) with coefficients k/1..k/8 or arbitrary f64 (0.1+0.2, 1e-7, 123456.789e3, random mantissas), either sense; 1 case in 50 has 33-100 variables with dense rows of >= 32 terms stored unsorted, 1 in 800 is a dense 300 x 40 instance with arbitrary coefficients (MPS text ~0.4 MB, more than 32 KiB compressed); written with mps::write_file and re-read with mps::load_file, and in one linear case in four (every large one) the instance read back is written and read a second time and must still be the problem first written; about 1 case in 8 has a quadratic or polynomial objective and/or constraint of degree >= 2 and must be refused. Non-trivial = linear instance that uses at least one variable; distinct = fingerprint of the encoded instance."
+        "each case: one instance with 0-6 variables (binary/integer/continuous, ids small, sparse or up to 2^62, bound unspecified / finite / lower-only / upper-only / infinite / negative / fractional / degenerate), some of them unused, objective absent / constant / linear, 0-5 constraints (= 0 or <= 0, non-contiguous ids, constant-only ones included), normalised linear functions (each id once, no zero coefficient) with coefficients k/1..k/8 or arbitrary f64 (0.1+0.2, 1e-7, 123456.789e3, random mantissas), either sense; 1 case in 50 has 33-100 variables with dense rows of >= 32 terms stored unsorted, 1 in 800 is a dense 300 x 40 instance with arbitrary coefficients (MPS text ~0.4 MB, more than 32 KiB compressed); written with mps::write_file (file names with and without the usual ending, sometimes in a directory that does not exist yet) and re-read with mps::load_file, and in one linear case in four (every large one) the instance read back is written and read a second time and must still be the problem first written; about 1 case in 8 has a quadratic or polynomial objective and/or constraint of degree >= 2 and must be refused. Non-trivial = linear instance that uses at least one variable; distinct = fingerprint of the encoded instance."
     }
     fn assumptions(&self) -> Vec<&'static str> {
         vec![
@@ -396,7 +406,15 @@ impl Property for C18 {
         let case = gen_case(rng);
         let inst = &case.inst;
         std::fs::create_dir_all(&env.scratch).expect("harness: scratch directory");
-        let path = env.scratch.join(format!("c18-{k}.mps.gz"));
+        // any file name, also in a directory that does not exist yet (write_file creates it)
+        let path = match rng.below(8) {
+            0 => env.scratch.join(format!("c18-{k}.MPS.GZ")),
+            1 => env.scratch.join(format!("c18-{k}")),
+            2 => env.scratch.join(format!("c18-{k}.dir")).join("sub dir").join("model.mps"),
+            3 => env.scratch.join(format!("c18-{k}.mps")),
+            _ => env.scratch.join(format!("c18-{k}.mps.gz")),
+        };
+        let _cleanup = Cleanup(path.clone(), env.scratch.join(format!("c18-{k}.dir")));
         let _ = std::fs::remove_file(&path);
 
         mon.eval();
